@@ -6,7 +6,9 @@ ROOT = os.path.dirname(os.path.dirname(os.path.abspath(__file__)))
 CROSS = {"C01-3": ["C13"], "C02-3": ["C13"], "C05-2": ["C13"], "C05-3": ["C11"], "C09-1": ["C03"], "C09-2": ["C08"], "C09-3": ["C03"],
          "C10-1": ["C05"], "C10-2": ["C03"], "C11-2": ["C14"], "C13-1": ["C01"], "C15-2": ["C13"], "C16-1": ["C13"], "C14-3": ["C01"],
          "C04-1": ["C17"], "C04-3": ["C17", "C03"], "C12-3": ["C06"], "C03-1": ["C09"], "C03-2": ["C04"], "C03-3": ["C04"],
-         "C09-4": ["C03", "C08"], "C09-5": ["C03", "C08"]}
+         "C09-4": ["C03", "C08"], "C09-5": ["C03", "C08"],
+         "C09-8": ["C03", "C04"], "C09-11": ["C07", "C08"], "C10-11": ["C07"], "C10-12": ["C09"], "C15-13": ["C04"], "C02-13": ["C05"],
+         "C01-13": ["C05"]}
 args = [a for a in sys.argv[1:] if not a.startswith("--")]
 seeds = args or sorted(d for d in os.listdir(os.path.join(ROOT, "seeded")) if re.match(r"C\d\d-\d", d))
 mpath = os.path.join(ROOT, "seeded", "matrix.json")
